@@ -209,7 +209,27 @@ func main() {
 			go func(w int) {
 				defer wg.Done()
 				own := ajson.Must(ajson.Unmarshal([]byte(fmt.Sprintf(`{"a":[1,2,3],"b":{"c":4},"w":%d}`, w))))
+				// strings that need unescaping into scratch space, long enough for any reuse of that space to show
+				letter := string(rune('A' + w))
+				var esc []*ajson.Node
+				var want []string
+				for i := 0; i < 4; i++ {
+					body := strings.Repeat(letter, 3000+i)
+					esc = append(esc, ajson.Must(ajson.Unmarshal([]byte(`["\t`+body+`\u0041",{"k\n`+body+`":1}]`))))
+					want = append(want, "\t"+body+"A")
+				}
 				<-start
+				for i, e := range esc {
+					if s, err := e.MustIndex(0).GetString(); err != nil || s != want[i] {
+						bad[w]++
+					}
+					if keys := e.MustIndex(1).Keys(); len(keys) != 1 || keys[0] != "k\n"+want[i][1:len(want[i])-1] {
+						bad[w]++
+					}
+					if nodes, err := e.JSONPath("$[1]['k\\n" + want[i][1:len(want[i])-1] + "']"); err != nil || len(nodes) != 1 {
+						bad[w]++
+					}
+				}
 				for i := 0; i < per; i++ {
 					k := w*100000 + i
 					for _, root := range []*ajson.Node{own, shared} {
